@@ -247,4 +247,4 @@ def run_shard(item, stats):
 
 
 def exhaustive_claim(tier, total):
-    return {"exhaustive": True, "explanation": "exhaustive for the encode/decode sub-domains listed under exhaustive_subdomains; assembler texts are sampled"}
+    return {"exhaustive": False, "explanation": "the space of the property as a whole is not finite; exhaustive only for the encode/decode sub-domains listed under exhaustive_subdomains; assembler texts are sampled"}
